@@ -5,9 +5,13 @@ Bounded exhaustive product, executed on the real library: every field list (1-2 
 `add_class_arguments(C, "g")`, `ActionParser` of an inner parser) x every per-field input option of the chosen
 parse method (argv, config string, environment, object, append `+`, dict item, null, invalid ...) x a group-level
 option (whole-group JSON on `--g`, whole-group environment variable, dotted-in-config spelling, unknown sub-key).
-Three small side spaces use the same machinery: a second, two-level group key (`t.g`); a top-level option linked
+Four side spaces use the same machinery: a second, two-level group key (`t.g`); a top-level option linked
 into the group (the linked field then refuses direct input - in every style); boolean flags declared with
-`ActionYesNo` (only the dotted and inner styles can declare them).
+`ActionYesNo` (only the dotted and inner styles can declare them); and "nested groups / source of the defaults":
+field lists in which a field is itself a group (a dataclass-typed field of the dataclass / class, dotted leaves
+`--g.f.s0`, an inner parser of the inner parser) x the place where the defaults are given (in the signature; at the
+declaration with `default=` overriding the signature; afterwards with `set_defaults`; by the default instance of
+the enclosing signature).
 
 Differential oracle, no hand-written expectation: for one case the observations of the styles that declare every
 addressed option must be identical - accept/reject, typed value of `as_dict()`, key order, and the text of the
@@ -39,12 +43,16 @@ META = {
     "level_text": "Every field list up to the stated length over the field-variant alphabet is declared in all four "
     "styles with real generated classes / dataclasses / inner parsers, and every combination of per-field input "
     "options of every parse method (parse_args with config string and environment, parse_object, parse_string, "
-    "parse_env, get_defaults) is executed on each style; the observations must coincide. The space is finite and is "
+    "parse_env, get_defaults) is executed on each style; the observations must coincide. A side space repeats this "
+    "for groups that contain a sub-group and for every place the defaults can be given (signature, default= at the "
+    "declaration, set_defaults afterwards, default instance of the enclosing signature). The space is finite and is "
     "enumerated completely, so within the bounds the verdict is exhaustive; it is a differential verdict (a defect "
     "common to all styles is invisible here and belongs to C02/C05/C06).",
     "level_note": "Trusted: the translation of one field list into four declarations by the two documented "
     "equivalence rules (Optional[T] without default = default None; T with default None = Optional[T]); typed "
-    "canonical form mc.util.tcanon; one value alphabet per field type (3 valid values, 1 invalid per channel). "
+    "canonical form mc.util.tcanon; one value alphabet per field type (3 valid values, 1 invalid per channel); the "
+    "same defaults are spelled per style (instance / dict at the declaration, nested value under the group key for "
+    "set_defaults, leaf by leaf in the dotted style, which has no group key). "
     "Inputs addressed to an option a style does not declare (--g / APP_G in the dotted style, ActionYesNo flags in "
     "the signature styles) are compared only across the styles that declare it. Error texts are not compared.",
     "design_ref": "DESIGN.md §5 C07",
@@ -200,6 +208,13 @@ def _gen_namespace():
     }
 
 
+def _compile(src, name, has_sub_groups):
+    """Generated sources inherit this module's `from __future__ import annotations`: their annotations are strings,
+    resolved by the library in this module's globals (Optional, List, Dict, E).  The generated classes of sub-groups
+    are not module globals, so sources that refer to them are compiled with real annotation objects instead."""
+    return compile(src, name, "exec", dont_inherit=True) if has_sub_groups else compile(src, name, "exec")
+
+
 def _sig_default(vid, dflt, alt):
     """The default text a signature / add_argument carries: the intended one, or the other one."""
     return ALT_DEFAULT[vid] if alt else dflt
@@ -253,7 +268,7 @@ def make_class(fields, dflt_mode="sig"):
     body = "".join(f"        self.{n} = {n}\n" for n, *_ in fields)
     src = "".join(lines) + f"class G:\n    def __init__(self, {', '.join(params)}):\n{body}"
     ns = _gen_namespace()
-    exec(compile(src, "<c07 generated class>", "exec"), ns)
+    exec(_compile(src, "<c07 generated class>", bool(lines)), ns)
     return ns["G"]
 
 
@@ -262,7 +277,7 @@ def make_dataclass(fields, dflt_mode="sig", with_instance=False):
     lines = []
     _gen_dataclass("GD", fields, lines, alt, sub_alt, fact)
     ns = _gen_namespace()
-    exec(compile("".join(lines), "<c07 generated dataclass>", "exec"), ns)
+    exec(_compile("".join(lines), "<c07 generated dataclass>", len(lines) > 1), ns)
     if with_instance:  # an instance that carries the intended defaults
         return ns["GD"], eval(_instance_src("GD", fields), ns)
     return ns["GD"]
@@ -347,7 +362,7 @@ def field_options(vid, method, level, group="g0", role=None):
     level: single (everything) | pair | pair+ (pair + invalid-by-config + two-source options) | triple (core).
     role: None, or "target" / "other" in the link side space."""
     base = VARIANTS[vid][0]
-    v = VALUES[base]
+    v = VALUES.get(base)
     lst, dct = base == "list", base == "dict"
     if method in ("defaults", "interface"):
         return ["U"]
@@ -578,18 +593,24 @@ def observe_style(style, case):
     obs = {}
     with restored_process_state():
         try:
-            parser = build_parser(style, fields, key, J, link=bool(case.get("link")))
+            parser = build_parser(style, fields, key, J, link=bool(case.get("link")), dflt_mode=case.get("dflt", "sig"))
         except Exception as ex:  # a style that cannot even be declared is a divergence of its own
             return {"accept": f"declaration-raises:{type(ex).__name__}", "detail": str(ex)[:300]}
         if method == "interface":
             text = parser.format_help()
             k = re.escape(key)
             obs["accept"] = "ok"
-            obs["options"] = sorted(set(re.findall(r"(?<![\w-])--(?:no_)?" + k + r"\.[^\s,=\]\[]+", text)))
-            obs["envvars"] = sorted(set(re.findall(r"APP_" + key.replace(".", "__").upper() + r"__\w+", text)))
+            options = set(re.findall(r"(?<![\w-])--(?:no_)?" + k + r"\.[^\s,=\]\[]+", text))
+            envvars = set(re.findall(r"APP_" + key.replace(".", "__").upper() + r"__\w+", text))
+            # the whole-group option --g, and the option --g.f of every sub-group, with their environment
+            # variables: declared by every style except the dotted one
+            sub_opts = {f"--{key}.{g}" for g in group_paths(fields)}
+            sub_envs = {"APP_" + f"{key}.{g}".replace(".", "__").upper() for g in group_paths(fields)}
+            obs["options"] = sorted(options - sub_opts)
+            obs["envvars"] = sorted(envvars - sub_envs)
             obs["has_group_option"] = bool(re.search(r"(?<![\w-])--" + k + r"(?![\w.])", text))
-            # the whole-group option --g: declared by every style except the dotted one
-            obs["group_option"] = "as-expected" if obs["has_group_option"] == (style != "dotted") else "unexpected"
+            present = [obs["has_group_option"]] + [o in options for o in sorted(sub_opts)] + [e in envvars for e in sorted(sub_envs)]
+            obs["group_option"] = "as-expected" if all(x == (style != "dotted") for x in present) else "unexpected"
             return obs
         dump_kw = {}
         if method == "args":
@@ -620,7 +641,8 @@ def observe_style(style, case):
         obs["accept"] = "ok"
         obs["value"] = tcanon(cfg.as_dict())
         obs["order"] = list(cfg.keys())
-        for name, kw in DUMPS if len(fields) == 1 else DUMPS[:2]:
+        # every dump variant on single-field lists and in the side space where the source of the defaults varies
+        for name, kw in DUMPS if len(fields) == 1 or "dflt" in case else DUMPS[:2]:
             d = outcome(parser.dump, cfg, **kw, **dump_kw)
             obs[name] = d["value"] if d["kind"] == "ok" else "raises:" + d.get("type", d["kind"])
     return obs
@@ -661,9 +683,10 @@ def _inputs_text(case):
 
 def subcases(case):
     """Simpler relatives of a case, simplest first - used to localise a divergence: every sub-list of the field list
-    (with the options of the kept fields), without the link / with the default group key where the case has them."""
+    (with the options of the kept fields), without the link / with the default group key / with the defaults given
+    in the signature where the case has them."""
     n = len(case["fields"])
-    linked, key = bool(case.get("link")), case.get("key")
+    linked, key, dflt = bool(case.get("link")), case.get("key"), case.get("dflt")
     out = []
     for size in range(1, n + 1):
         for idx in itertools.combinations(range(n), size):
@@ -674,16 +697,28 @@ def subcases(case):
                 if not link and "S" in opts:
                     continue  # the link source exists only with the link
                 for k in [None, key] if key else [None]:
-                    if size == n and link == linked and k == key:
-                        continue  # the case itself
-                    sub = {"fields": [case["fields"][i] for i in idx], "method": case["method"], "opts": opts}
-                    sub["group"] = "gJ" if case.get("group") == "gJ1" and size == 1 else case.get("group", "g0")
-                    if k:
-                        sub["key"] = k
-                    if link:
-                        sub["link"] = True
-                    if len(applicable_styles(sub)) == len(applicable_styles(case)):
-                        out.append(((size, link, k is not None), len(out), sub))
+                    for mode in dict.fromkeys(["sig", dflt]) if dflt else [None]:
+                        if not mode and size == n and link == linked and k == key:
+                            continue  # the case itself
+                        sub = {"fields": [case["fields"][i] for i in idx], "method": case["method"], "opts": opts}
+                        sub["group"] = "gJ" if case.get("group") == "gJ1" and size == 1 else case.get("group", "g0")
+                        if k:
+                            sub["key"] = k
+                        if link:
+                            sub["link"] = True
+                        if mode:
+                            if mode == "fact" and not any(v in SUBS for v in sub["fields"]):
+                                continue  # without a sub-group this is the signature mode
+                            sub["dflt"] = mode
+                        if len(applicable_styles(sub)) != len(applicable_styles(case)):
+                            continue
+                        rank = (size, link, k is not None, mode not in (None, "sig"))
+                        if mode and (any(o != "U" for o in opts) or sub["group"] != "g0"):
+                            # where the source of the defaults varies the declaration itself is a suspect: the
+                            # same group without any input comes first
+                            out.append((rank + (0,), len(out), {**sub, "opts": ["U"] * size, "group": "g0"}))
+                        if not (size == n and link == linked and k == key and mode == dflt):
+                            out.append((rank + (1,), len(out), sub))
     return [sub for _, _, sub in sorted(out, key=lambda t: t[:2])]
 
 
@@ -699,6 +734,7 @@ def signature(aspect, partition, case):
     where = "+".join(sorted(_token(v, o) for v, o in zip(case["fields"], case["opts"])))  # the witness is minimal
     group = case.get("group", "g0")
     tags = ("" if case.get("key", "g") == "g" else ":key=" + case["key"]) + (":link" if case.get("link") else "")
+    tags += "" if case.get("dflt", "sig") == "sig" else ":dflt=" + case["dflt"]
     return f"{aspect}:{partition}:{case['method']}:{group}:{where}{tags}"
 
 
@@ -759,6 +795,40 @@ def flag_lists():
     return out
 
 
+DFLT_ALPHABET = [v for v in WITH_DEFAULT if v in ALT_DEFAULT]  # intN has no second default to override
+
+
+def dflt_lists(quick):
+    """Side space "nested groups / source of the defaults": [(field list, defaults mode, level)].
+
+    Every list of with-default fields (and sub-groups) up to the stated length x every way of giving the defaults:
+    lists with a sub-group in all four modes (`sig` is new for them), lists without one in the modes `decl` and
+    `post` (their `sig` mode is the main space, `fact` needs a sub-group)."""
+    out = []
+    alphabet = DFLT_ALPHABET + ["sub"]
+    small = ["int", "ostr", "list"]
+    for n in (1, 2):
+        for fl in itertools.product(alphabet, repeat=n):
+            nested = "sub" in fl
+            if quick and n == 2 and not set(fl) <= set(small + ["sub"]):
+                continue  # quick tier: every single field; pairs over the small alphabet and the sub-group
+            for mode in DFLT_MODES if nested else ["decl", "post"]:
+                if quick and n == 2 and mode == "fact":
+                    continue  # quick tier: the default instance of the enclosing signature on single fields only
+                out.append((list(fl), mode, "pair" if n == 1 else "triple"))
+    # a sub-group that contains a sub-group followed by a field (three levels): alone; in pairs (thorough)
+    for fl in [["sub2"]] + ([[v, "sub2"] for v in small] + [["sub2", v] for v in small] if not quick else []):
+        for mode in DFLT_MODES:
+            out.append((fl, mode, "pair" if len(fl) == 1 else "triple"))
+    if not quick:
+        # triples with one sub-group over the small alphabet
+        for fl in itertools.product(small + ["sub"], repeat=3):
+            if fl.count("sub") == 1:
+                for mode in DFLT_MODES:
+                    out.append((list(fl), mode, "triple"))
+    return out
+
+
 def plan(quick):
     """Blocks; each block is the full product of per-field options and group options of one (field list, method)."""
     blocks = []
@@ -779,6 +849,11 @@ def plan(quick):
     for fl in field_lists(2):
         for m in ("interface", "args"):
             blocks.append({"fields": fl, "method": m, "level": "pair", "key": "g", "link": True})
+    # side space: nested groups / source of the defaults
+    for fl, mode, level in dflt_lists(quick):
+        for m in METHODS:
+            if m != "string":
+                blocks.append({"fields": fl, "method": m, "level": level, "key": "g", "dflt": mode})
     return blocks
 
 
@@ -795,6 +870,8 @@ def block_cases(block):
                 case["key"] = key
             if link:
                 case["link"] = True
+            if block.get("dflt"):
+                case["dflt"] = block["dflt"]
             if group == "gD" and all(o == "U" for o in opts):
                 continue  # nothing to spell: identical to the g0 case
             if len(applicable_styles(case)) >= 2:
@@ -825,6 +902,10 @@ def work(block):
             count("side:link")
         if case.get("key"):
             count("side:key=" + case["key"])
+        if case.get("dflt"):
+            count("side:dflt=" + case["dflt"])
+            if any(v in SUBS for v in case["fields"]):
+                count("side:nested-group")
         for o in case["opts"]:
             count(f"opt:{o}")
         first = next(iter(obs.values()))
@@ -845,9 +926,20 @@ def work(block):
                     count("flag-accepted")
                 if o == "S":
                     count("link-source-accepted")
+                if o == "J":
+                    count("sub-group-json-accepted")
+            if case["method"] == "defaults" and case.get("dflt", "sig") != "sig":
+                # premise of the side space: the defaults given outside the signature are the ones in force
+                from mc.util import tcanon
+
+                want_value = tcanon(intended_defaults(field_specs(case["fields"])))
+                got = [x for k, x in (first.get("value") or [None, []])[1] if k == case.get("key", "g")]
+                count("defaults-source:cases")
+                if got == [want_value]:
+                    count("defaults-source:effective")
         if case["method"] == "interface":
             listed = field_specs(case["fields"])[: -1 if case.get("link") else None]  # a link target is not listed
-            want = {f"--{case.get('key', 'g')}.{n}" for n, *_ in listed}
+            want = {f"--{case.get('key', 'g')}.{path}" for path, *_ in leaf_paths(listed)}
             for s, o in obs.items():
                 count("interface-style-runs")
                 if o.get("accept") == "ok" and want <= set(o.get("options", [])):
@@ -896,7 +988,7 @@ def explore(ctx):
     total = {"n": 0, "style_runs": 0, "nontrivial": 0}
     obs = set()
     devs = []
-    n_lists = len({(tuple(b["fields"]), b["key"], bool(b.get("link"))) for b in blocks})
+    n_lists = len({(tuple(b["fields"]), b["key"], bool(b.get("link")), b.get("dflt")) for b in blocks})
     for res in ctx.pmap(work, blocks, chunk=4):
         for k in total:
             total[k] += res[k]
@@ -924,7 +1016,9 @@ def explore(ctx):
         bounds={
             "field_variants": list(VARIANTS),
             "max_fields": 2 if ctx.quick else 3,
-            "declared_groups (field list x key x link)": n_lists,
+            "declared_groups (field list x key x link x source of the defaults)": n_lists,
+            "sub_group_shapes": {k: v for k, v in SUB_SHAPES.items() if k == "sub" or not ctx.quick},
+            "defaults_modes": DFLT_MODES,
             "styles": STYLES,
             "methods": METHODS,
             "blocks": len(blocks),
@@ -946,6 +1040,17 @@ def explore(ctx):
     ctx.require(c.get("null-accepted", 0) > 20, "null is accepted for nullable fields in > 20 cases")
     ctx.require(c.get("flag-accepted", 0) > 5, "ActionYesNo flags are accepted in > 5 cases")
     ctx.require(c.get("link-source-accepted", 0) > 20, "the link source is accepted in > 20 cases")
+    ctx.require(c.get("side:nested-group", 0) > 500, "> 500 cases on groups that contain a sub-group")
+    ctx.require(c.get("sub-group-json-accepted", 0) > 20, "whole-sub-group JSON on --g.f is accepted in > 20 cases")
+    for mode in DFLT_MODES:
+        ctx.require(c.get("side:dflt=" + mode, 0) > 30, f"> 30 cases with the defaults given by mode '{mode}'")
+    defaults_deviate = any(":defaults:" in sig and ":dflt=" in sig for sig in ctx.deviations)
+    ctx.require(
+        c.get("defaults-source:cases", 0) > 40
+        and (defaults_deviate or c.get("defaults-source:effective", 0) == c.get("defaults-source:cases", -1)),
+        "defaults given at / after the declaration or by the enclosing signature are the ones in force (first style; "
+        "a style where they are not is reported as a deviation)",
+    )
     # interface guards: when a style fails to expose an option, that is reported as a deviation (aspects options /
     # envvars / group_option / accept) and must not be pre-empted by a vacuity error
     interface_deviates = any(sig.split(":")[2] == "interface" for sig in ctx.deviations)
@@ -961,7 +1066,7 @@ def explore(ctx):
     )
     for m in METHODS:
         ctx.require(c.get(f"method:{m}", 0) > 0, f"method {m} exercised")
-    for o in ("A", "C", "E", "X", "XC", "N", "P", "CP", "K", "CK", "CA", "EA", "AP", "EK", "O", "F", "NF", "NA", "S"):
+    for o in ("A", "C", "E", "X", "XC", "N", "P", "CP", "K", "CK", "CA", "EA", "AP", "EK", "O", "F", "NF", "NA", "S", "J"):
         ctx.require(c.get(f"opt:{o}", 0) > 0, f"input option {o} exercised")
     for g in ("gJ", "gJ1", "gE", "gD", "gUa", "gUc", "gUj", "gU"):
         ctx.require(c.get(f"group:{g}", 0) > 0, f"group option {g} exercised")
